@@ -43,6 +43,11 @@ P3 == INSTANCE CfbPhys WITH SectorLen <- 512, MiniLen <- 64, Cutoff <- 4096, Fat
 P4 == INSTANCE CfbPhys WITH SectorLen <- 4096, MiniLen <- 64, Cutoff <- 4096, FatPer <- 1024, DirPer <- 32, DifatHdr <- 109,
                             DirCount <- TRUE, NameLess <- PLess, NameEq <- PEq, ModuloPolicy <- FALSE, TrackData <- FALSE, Scrub <- TRUE
 
+(* The API layer (CfbApi = lib.rs on top of CfbPhys) at the real geometries: for every call the library REFUSED, the   *)
+(* error kind the model's check order yields in the same physical state is compared with the library's ("api" drift).  *)
+A3 == INSTANCE CfbApi WITH SectorLen <- 512, MiniLen <- 64, Cutoff <- 4096, FatPer <- 128, DirPer <- 4, DifatHdr <- 109, DirCount <- FALSE
+A4 == INSTANCE CfbApi WITH SectorLen <- 4096, MiniLen <- 64, Cutoff <- 4096, FatPer <- 1024, DirPer <- 32, DifatHdr <- 109, DirCount <- TRUE
+
 VARIABLES q, ver, l, skip
 vars == <<q, ver, l, skip>>
 
@@ -158,6 +163,26 @@ XClass(p, p2, e) ==
                 [] OTHER -> e.op
   IN XStepClass(what, p, p2)
 
+(* the result kind CfbApi predicts for a call (only its kind is used: "ok" or the error kind) *)
+ApiRes(p, e) ==
+  LET z == P3!ZT IN
+  CASE e.op = "create_storage"     -> (IF ver = 3 THEN A3!ApiCreateStorage(p, e.p, z) ELSE A4!ApiCreateStorage(p, e.p, z)).res
+    [] e.op = "create_storage_all" -> (IF ver = 3 THEN A3!ApiCreateStorageAll(p, e.p, z) ELSE A4!ApiCreateStorageAll(p, e.p, z)).res
+    [] e.op = "create_stream"      -> (IF ver = 3 THEN A3!ApiCreateStream(p, e.p, TRUE) ELSE A4!ApiCreateStream(p, e.p, TRUE)).res
+    [] e.op = "create_new_stream"  -> (IF ver = 3 THEN A3!ApiCreateStream(p, e.p, FALSE) ELSE A4!ApiCreateStream(p, e.p, FALSE)).res
+    [] e.op = "remove_storage"     -> (IF ver = 3 THEN A3!ApiRemoveStorage(p, e.p) ELSE A4!ApiRemoveStorage(p, e.p)).res
+    [] e.op = "remove_stream"      -> (IF ver = 3 THEN A3!ApiRemoveStream(p, e.p) ELSE A4!ApiRemoveStream(p, e.p)).res
+    [] e.op = "remove_storage_all" -> (IF ver = 3 THEN A3!ApiRemoveStorageAll(p, e.p) ELSE A4!ApiRemoveStorageAll(p, e.p)).res
+    [] e.op = "set_clsid"          -> (IF ver = 3 THEN A3!ApiSetClsid(p, e.p, "") ELSE A4!ApiSetClsid(p, e.p, "")).res
+    [] e.op = "set_bits"           -> (IF ver = 3 THEN A3!ApiSetBits(p, e.p, "") ELSE A4!ApiSetBits(p, e.p, "")).res
+    [] e.op \in {"set_ctime", "touch"} -> (IF ver = 3 THEN A3!ApiSetCTime(p, e.p, z) ELSE A4!ApiSetCTime(p, e.p, z)).res
+    [] e.op = "set_mtime"          -> (IF ver = 3 THEN A3!ApiSetMTime(p, e.p, z) ELSE A4!ApiSetMTime(p, e.p, z)).res
+    [] OTHER -> [k |-> "?"]
+ApiAgrees(p, e) ==
+  LET r == ApiRes(p, e) IN
+  r.k = "?" \/ (r.k = "err" /\ e.res.k = "err" /\ r.e = e.res.e)
+AllNamesKnown(e) == ~Has(e, "p") \/ \A i \in 1..Len(e.p.t) : e.p.t[i] \in {".", ".."} \/ Known(e.p.t[i])
+
 ---------------------------------------------------------------------------
 (* comparison of the predicted state with the raw decode of the image        *)
 SlotView(s) == <<s.name, s.kind, s.left, s.right, s.child, s.start, s.size>>
@@ -209,7 +234,7 @@ Loadable(e) ==
   /\ Len(e.img.slots) > 0 /\ e.img.slots[1].type = 5
   /\ (IF e.ver = 3 THEN e.img.slots[1].size3 ELSE e.img.slots[1].size) = 64 * Len(e.img.minifat)
 
-Init == q = <<>> /\ ver = 0 /\ l = 1 /\ skip = TRUE /\ TLCSet(41, 0) /\ TLCSet(46, 0)
+Init == q = <<>> /\ ver = 0 /\ l = 1 /\ skip = TRUE /\ TLCSet(41, 0) /\ TLCSet(46, 0) /\ TLCSet(47, 0)
 
 Step ==
   /\ l <= Len(Rec)
@@ -227,6 +252,7 @@ Step ==
      ELSE IF Has(e, "h") /\ e.h # ""
      THEN /\ PrintT(<<"NOTE", "phys-handle-history", e.hi, e.oi, l>>) /\ skip' = TRUE /\ UNCHANGED <<q, ver>>
      ELSE LET q2 == IF e.res.k = "ok" THEN XApply(q, e) ELSE q
+              apiBad == e.res.k = "err" /\ e.res.e \in {"NotFound", "AlreadyExists", "InvalidInput"} /\ AllNamesKnown(e) /\ ~ApiAgrees(q, e)
               bad == IF e.heavy /\ Has(e, "img") /\ ~e.img.short /\ e.img.geometry THEN Mismatches(q2, e.img) ELSE <<>>
           IN /\ q' = q2 /\ UNCHANGED ver
              /\ (IF e.heavy /\ Has(e, "img") THEN TLCSet(41, TLCGet(41) + 1) ELSE TRUE)
@@ -234,11 +260,13 @@ Step ==
                                                   "remove_stream", "remove_storage", "remove_storage_all"}
                  THEN PrintT(<<"CLASS", XClass(q, q2, e)>>) ELSE TRUE)
              /\ (\A i \in 1..Len(bad) : PrintT(<<"DRIFT", bad[i][1], e.hi, e.oi, l>>))
+             /\ (IF apiBad THEN PrintT(<<"DRIFT", "api", e.hi, e.oi, l>>) ELSE TRUE)
+             /\ (IF e.res.k = "err" /\ ApiRes(q, e).k # "?" THEN TLCSet(47, TLCGet(47) + 1) ELSE TRUE)
              /\ skip' = (bad # <<>>)
   /\ l' = l + 1
 Next == Step
 Spec == Init /\ [][Next]_vars
 Consumed == IF TLCGet("stats").diameter = Len(Rec) + 1
-            THEN PrintT(<<"COMPARED", TLCGet(41)>>) /\ PrintT(<<"FOREIGN", TLCGet(46)>>)
+            THEN PrintT(<<"COMPARED", TLCGet(41)>>) /\ PrintT(<<"FOREIGN", TLCGet(46)>>) /\ PrintT(<<"REFUSALS", TLCGet(47)>>)
             ELSE PrintT(<<"STUCK", TLCGet("stats").diameter, Len(Rec)>>) /\ FALSE
 =============================================================================
